@@ -151,7 +151,7 @@ def item_span(s, m, header_pat, nth=0):
 
 def fn_span(s, m, name, start, end):
     """(start_with_attrs, sig_start, body_open, body_close) of fn `name` between start and end"""
-    pat = r'^[ \t]*(?:pub(?:\([a-z]+\))? )?(?:const )?fn ' + re.escape(name) + r'\b'
+    pat = r'^[ \t]*(?:pub(?:\([a-z]+\))? )?(?:const )?fn ' + re.escape(name) + r'(?![A-Za-z0-9_])'
     ms = list(find_code(s, m, pat, start, end))
     if len(ms) != 1:
         raise Lost('fn %s: %d matches' % (name, len(ms)))
